@@ -159,6 +159,12 @@ def checkBlock (acc : DAcc) (contents : Bytes) : IO DAcc := do
     acc := { acc with evals := acc.evals + 1 }
     if (ml.isOk || ml.isPanic) && !(cls gl ml) then
       acc ← report { acc with diffs := acc.diffs + 1 } s!"DIFF bi_seek_to_last block={hx contents}"
+    for t in [[], [0x61], [0x61, 0x62], [0x61, 0x62, 0x63, 0x00], [0x62], [0x6b, 0x30, 0x35], [0x6b, 0x31, 0x39], [0x6b, 0x31, 0x39, 0x00], [0x7a], List.replicate 130 0x61] do
+      acc := { acc with evals := acc.evals + 1 }
+      let gs := Gen.bi_seek fuel defaultCmp it0 t
+      let msk := it0.seek defaultCmp t
+      if (msk.isOk || msk.isPanic) && !(cls gs msk) then
+        acc ← report { acc with diffs := acc.diffs + 1 } s!"DIFF bi_seek block={hx contents} target={hx t}"
     for ix in [0:4] do
       acc := { acc with evals := acc.evals + 1 }
       if !(cls (Gen.bi_seek_to_restart_point it0 ix) (it0.seekToRestartPoint ix)) then
